@@ -336,6 +336,12 @@ def exec_loop_with_invariant(ctx, s, fr, spec, kind, iterable=None):
             set_field(ctx, cur, parts[-1], val)
         for name, shape in spec.ghost.items():
             ctx.ghost[name] = shape.make(ctx, ctx.fresh_name("ghost." + name))
+        for (owner, attr), shape in getattr(spec, "state", {}).items():
+            val = shape.make(ctx, ctx.fresh_name("loop.%s.%s" % (getattr(owner, "__name__", "?"), attr)))
+            if isinstance(owner, type):
+                ctx.class_overlay[(owner, attr)] = val
+            else:
+                ctx.module_overlay[(owner, attr)] = val
         for path in spec.open_dicts:
             open_dict_of(ctx, fr.locals, path)
 
@@ -612,6 +618,8 @@ def run_contract(eng, c, clause_filter=None):
                     raise
                 ctx.prove("%s/post#%s" % (label, nm), g, info={"kind": "post"}, assume_after=False)
             for nm, f in c.controls.items():
+                if (label, nm) in eng.controls_refuted:
+                    continue          # a negative control needs ONE refutation; it is not re-attempted on later paths
                 try:
                     g = ctx.as_goal(ctx.call_spec(f, ns2, strict=False))
                 except PyRaise as r:
@@ -619,6 +627,8 @@ def run_contract(eng, c, clause_filter=None):
                 ob = ctx.prove("%s/control#%s" % (label, nm), g,
                                info={"kind": "control"}, assume_after=False)
                 ob.info["control"] = True
+                if ob.status == "refuted":
+                    eng.controls_refuted.add((label, nm))
         elif outcome[0] == "raise":
             exc = outcome[1]
             ns2 = dict(ns, exc=exc, old=old)
